@@ -131,8 +131,11 @@ main (int argc, char **argv)
   g_voc = full_vocabulary ();
   unsigned request_secs = argc > 2 ? atoi (argv[2]) : 10;
   {
+#ifndef __SANITIZE_ADDRESS__
+    // (AddressSanitizer reserves terabytes of address space: no limit there)
     struct rlimit rl = {(rlim_t) 6 << 30, (rlim_t) 6 << 30};
     setrlimit (RLIMIT_AS, &rl);
+#endif
     signal (SIGALRM, on_alarm);
   }
   std::string line;
